@@ -1312,7 +1312,15 @@ def run(ctx):
     import random as rng_mod
     logging.disable(logging.CRITICAL)
     rng = ctx.rng
+    # second tie: re-translate the ROADM code of /repo's source; the equivalence lemmas of Proofs/RoadmGen.v are then
+    # re-checked by check_props against what the code says now
+    from . import pygen_c06
+    gen_ok, gen_msg = pygen_c06.regenerate()
     ctx.proof = common.check_props('C06')
+    if not gen_ok:
+        ctx.proof['ok'] = False
+        ctx.proof['log'] = 'harness/pygen_c06.py: ' + gen_msg + '\n' + ctx.proof.get('log', '')
+        ctx.proof['failed_file'] = 'theories/Gen/RoadmGen.v (translation of /repo source failed)'
     ctx.rule = ('element-level cases (random node policy incl. none / several / null, per-degree tables of all three kinds, '
                 '0-5 impairment profiles with 1-3 frequency bands, registered add/drop/express paths, 1-4 crossings with '
                 '1-12 (big: 20-60) carriers of mixed baud rate / slot width / offset / power in C and L band) and '
@@ -1490,6 +1498,12 @@ def run(ctx):
         if d:
             ctx.corr_break(d[0], (tag + ': ' if tag else '') + d[1], pub, impl=d[2], model=d[3])
     ctx.assumptions += [
+        'translator tie: harness/pygen_c06.py (fail-closed Python-ast -> Gallina over Q, on harness/pygen.py: templates for '
+        'Roadm.propagate / get_impairment / get_roadm_path / set_roadm_paths / to_json, set_roadm_per_degree_targets, '
+        'set_roadm_internal_paths, RoadmParams, json_io.Roadm, find_equalisation, merge_equalization, convert_degree; '
+        'translated: the per-carrier equalisation arithmetic, the target resolution chains, band test and defaults, the '
+        'design-step tests / fills / look-up keys, the policy key tests and bounds; structural rules for '
+        'SpectralInformation.__init__, select_channels and the mode adoption in compute_path_with_disjunction)',
         'dB values of PSD / PSW targets, baud rates, slot widths and channel powers are computed by the harness with '
         'math.log10 (10·log10(psd) + 10·log10(baud/1e9) for a PSD target) and fed to the model as exact rationals',
         'PSD / PSW values are > 0 (no dB value otherwise); frequency-range entries have both bounds or none',
